@@ -220,6 +220,11 @@ class Check:
         cmd = f"make -C coq Props/{self.prop}.vo  (coqc 8.16.1, full .vo build of the closure: {len(files)} files)"
         self.proof.update(obligations=n, checker_cmd=cmd, files=files)
         rc, out = self._make([f"Props/{self.prop}.vo"])
+        if rc and not re.search(r'File "\./[^"]+", line \d+', out):
+            # no source location: the build was disturbed (out of memory, killed), not a rejected proof -- retry serially
+            rc, out = sh(["timeout", "2400", "make", "-j1", f"Props/{self.prop}.vo"], cwd=COQ, timeout=2500)
+            if rc and not re.search(r'File "\./[^"]+", line \d+', out):
+                raise RuntimeError("coq build failed without a source location (infrastructure): " + out[-600:])
         if rc == 0:
             # re-run coqc on the property file alone to capture Print Assumptions
             rc2, out2 = sh(["coqc", "-Q", ".", "Verif", pfile], cwd=COQ)
